@@ -18,8 +18,28 @@ def run(ctx):
     fams = ["corpus-nocuts", "opsweep", "meta", "random", "alphabet", "adversarial"]
     cov = deccheck.run_decoder_traces(ctx, fams, 1500 if quick else 30000, KINDS,
                                       "disassembly differs from the decoding machine's listing")
+    # cmd/disivg is a thin file wrapper: same bytes as the library call, non-zero exit on a rejected file
+    import os, subprocess
+    tool = os.path.join(ctx.tmp, "disivg")
+    b = subprocess.run(["go", "build", "-o", tool, "./cmd/disivg"], cwd=vlib.REPO, env=dict(os.environ, **vlib.GOENV),
+                       capture_output=True, text=True)
+    if b.returncode != 0:
+        raise vlib.Broken("cmd/disivg does not build:\n" + b.stderr)
+    cli = 0
+    for name in ("favicon.ivg", "gradient.ivg", "arcs.ivg"):
+        f = os.path.join(vlib.REPO, "testdata", name)
+        a = subprocess.run([tool, f], capture_output=True)
+        lib, _ = ctx.run_harness(["dis", f], check=False)
+        cli += 1
+        if a.returncode != 0 or a.stdout.decode("utf-8", "replace") != lib.stdout:
+            ctx.violation("disivg:" + name, "cmd/disivg output differs from decode.Disassemble", dict(file=name, exit=a.returncode))
+    bad = os.path.join(ctx.tmp, "bad.ivg")
+    open(bad, "wb").write(open(os.path.join(vlib.REPO, "testdata", "favicon.ivg"), "rb").read()[:-3])
+    a = subprocess.run([tool, bad], capture_output=True)
+    if a.returncode == 0:
+        ctx.violation("disivg:rejected", "cmd/disivg exits 0 on an input the decoder rejects", dict(stdout=a.stdout[-200:].decode("utf-8", "replace")))
     mc = ctx.mc[-1]
-    coverage = dict(states=mc["distinct"], transitions=mc["generated"],
+    coverage = dict(disivg_files=cli, states=mc["distinct"], transitions=mc["generated"],
                     traces_validated_against_impl=cov["inputs"],
                     samples=vlib.sample_lines(cov["files"][2], 2, 1200),
                     evaluations=cov["events"], distinct_nontrivial=cov["inputs"],
